@@ -167,6 +167,45 @@ def check_validator(fx, rep, b):
     rep.oblige(ok_c, "R08.1", "is-jumpdest", w, "the validator does not reject a target whose instruction is not the JUMPDEST opcode (on the instruction fetched for that target, before returning Ok)")
 
 
+def check_move_bounds(fx, rep):
+    """R08.2 (move bounds): the primitives that place a thread on an offset (`jump`, `at`) do so exactly when the offset is
+    inside the stream: the write of the instruction pointer is guarded by `offset < len` with the stream's length as it stands.
+    With `len - 1` the last instruction cannot be reached (a forked thread stays on its JUMPI); with `<=` one past the end can."""
+    ET = "disassembly::ExecutionThread"
+    n = 0
+    for b in fx.fn_bodies():
+        if b.get("impl_self") != ET or not b.get("hir"):
+            continue
+        root = b["hir"]["value"]
+        params = {p_["local"]: p_["name"] for p_ in b["hir"]["params"] if p_.get("p") == "Bind" and p_.get("name") != "self"}
+        mutated = T.mutated_locals(root)
+        for a, aps in F.walk(root):
+            if a.get("k") != "Assign":
+                continue
+            lt = T.term(a["l"], T.Env(), mutated)
+            if not (lt[0] == "field" and lt[2] == "instruction_pointer"):
+                continue
+            rl = F.local_of(F.strip(a["r"]))
+            if rl not in params:
+                continue  # stepping (ip + 1) is C03's R03.1
+            n += 1
+            env = T.env_at(aps, a, mutated)
+            ok = False
+            seen = []
+            for lhs, rhs, strict in T.upper_bounds(aps, a, env, mutated):
+                x = lhs
+                while isinstance(x, tuple) and x[0] in ("cast", "ref", "deref") and len(x) > 1:
+                    x = x[1]
+                if not (isinstance(x, tuple) and x[0] == "local" and x[1] == rl):
+                    continue
+                plain_len = isinstance(rhs, tuple) and rhs[0] == "call" and isinstance(rhs[1], str) and F.strip_generics(rhs[1]).split("::")[-1] == "len"
+                seen.append(f"{T.short(lhs)[:30]} {'<' if strict else '<='} {T.short(rhs)[:40]}")
+                if plain_len and strict:
+                    ok = True
+            rep.oblige(ok, "R08.2", f"move-bound:{b['name']}", F.loc(a["span"]), f"`{b['def']}` places the thread on `{params[rl]}` under {seen or 'no bound'} instead of `{params[rl]} < len`: the last instruction cannot be reached, or an offset past the end can", sample={"rule": "R08.2", "fn": b["name"], "bound": seen})
+    rep.floor("R08.2", n, 2, "primitives that place a thread on a given offset")
+
+
 def check(fx, rep, tier):
     cg = F.CallGraph(fx)
     vm = VMModel(fx, cg)
@@ -179,6 +218,7 @@ def check(fx, rep, tier):
     vname = validators[0]["def"] if validators else None
 
     # ---------------------------------------------------------------- R08.2
+    check_move_bounds(fx, rep)
     exec_of = {}
     for i, b in fx.trait_method_bodies("opcode::Opcode", "execute"):
         exec_of[b["def"]] = i.get("self_adt")
